@@ -17,7 +17,12 @@ code as it is; the switches in `Fix` select the repaired variants:
 * `notFoundWhenAllMissing` — `GetPart` of a part none of whose shards exists answers not-found
   instead of healing an empty part into existence (C15);
 * `healParity` — a healed *parity* shard gets its reconstructed payload (the code calls
-  `ReconstructData`, which leaves missing parity shards empty, and writes zero-length frames).
+  `ReconstructData`, which leaves missing parity shards empty, and writes zero-length frames);
+* `endWhenEnoughEnded` — a stripe that shows no valid frame while at least `d` still open readers are at
+  the end of their stream is the end of the part: frame-sized garbage behind the last frame of a few
+  shards no longer fails the read (fixes/C17-trailing-garbage-is-a-bad-shard.patch);
+* `failWhenTooFewOpen` — `GetPart` fails at once, writing nothing, when fewer than `d` shards can be
+  opened (fixes/C17-too-few-readable-shards-is-an-error.patch).
 
 Core Lean only.
 -/
@@ -46,10 +51,13 @@ structure Code where
 structure Fix where
   notFoundWhenAllMissing : Bool := false
   healParity : Bool := false
+  endWhenEnoughEnded : Bool := false
+  failWhenTooFewOpen : Bool := false
   deriving Repr, DecidableEq
 
 def Fix.asIs : Fix := {}
-def Fix.repaired : Fix := { notFoundWhenAllMissing := true, healParity := true }
+def Fix.repaired : Fix :=
+  { notFoundWhenAllMissing := true, healParity := true, endWhenEnoughEnded := true, failWhenTooFewOpen := true }
 
 /-! ## writing -/
 
@@ -130,6 +138,11 @@ def FrameRead.seen : Option FrameRead → Bool
   | some (.ok ..) => true
   | _ => false
 
+/-- the (still open) reader is at the end of its stream: no complete frame header left -/
+def FrameRead.ended : Option FrameRead → Bool
+  | some .eof => true
+  | _ => false
+
 def FrameRead.payload : Option FrameRead → Option Bytes
   | some (.ok _ p _) => some p
   | _ => none
@@ -190,7 +203,12 @@ def loop (c : Cfg) (code : Code) (H : Bytes → Bytes) (fix : Fix) (healing : Li
       let dataBytes := (frs.findSome? FrameRead.dataBytes).getD 0
       let fail : ReadResult := ⟨acc, true, hacc.map fun _ => none,
         (List.zip healing hacc).map fun (h, s) => if h then some s else none⟩
-      if (shards.filter Option.isSome).length < c.d then fail else
+      -- repaired: no valid frame at all and at least `d` open readers at their end = end of the part
+      let short : ReadResult :=
+        if fix.endWhenEnoughEnded && !(shards.any Option.isSome) && decide (c.d ≤ (frs.filter FrameRead.ended).length) then
+          ⟨acc, false, (List.zip healing hacc).map fun (h, s) => if h then some s else none, []⟩
+        else fail
+      if (shards.filter Option.isSome).length < c.d then short else
       if !sameSizes shards then fail else
       match dataOf c code shards with
       | none => fail
@@ -212,6 +230,8 @@ inductive GetOut where
 def read (c : Cfg) (code : Code) (H : Bytes → Bytes) (fix : Fix) (streams : List (Option Bytes)) : GetOut :=
   if fix.notFoundWhenAllMissing && streams.all Option.isNone then .notFound else
   let readers := (List.zip (List.range streams.length) streams).map fun (k, s) => openShard c k s
+  if fix.failWhenTooFewOpen && decide ((readers.filter Option.isSome).length < c.d) then
+    .result ⟨[], true, readers.map fun _ => none, []⟩ else
   let healing := readers.map Option.isNone
   let hacc := (List.range readers.length).map fun k => shardHeader c k
   .result (loop c code H fix healing (fuelFor readers) 0 readers [] hacc)
